@@ -4,7 +4,8 @@ The only transformations applied to extracted text (DESIGN §2.2, reported in ev
   R1  visibility qualifiers (`pub`, `pub(crate)`, `pub(super)`), outer attributes (`#[...]`) and
       doc comments are removed; `#[derive(..)]` is reduced to its `Clone`/`Copy` members (ownership
       semantics are kept, Debug/PartialEq/Ord/Hash impls are not needed by any contract);
-  R2  unused closure parameters `|_|` are renamed `|_e|`;
+  R2  unused closure parameters `|_|` are renamed `|_e|`; a function item passed to `.map_err(f)` is
+      eta-expanded to `.map_err(|_e| f(_e))`;
   R3  statements starting with a literal prefix on the unit's drop list are deleted;
   R4  contract clauses are spliced between signature and body and `-> T` becomes `-> (name: T)`.
 Nothing else: if the verbatim text does not pass Verus the unit is not rewritten by hand.
@@ -253,6 +254,11 @@ def transform(text, log, where, keep_eq=False):
     # R2b the elided lifetime of a `const X: &str` item is spelled out (`&'static str`): identical meaning,
     # required by the verus! macro's const handling
     text5, n_st = re.subn(r"(?m)^(\s*const\s+\w+\s*:\s*)&str\b", r"\1&'static str", text4)
+    # R2c a function item passed to `.map_err(..)` is eta-expanded (`.map_err(f)` -> `.map_err(|_e| f(_e))`):
+    # identical meaning; Verus does not accept a function item where a closure is expected
+    text5, n_eta = re.subn(r"\.map_err\(\s*([A-Za-z_][A-Za-z0-9_]*)\s*\)", r".map_err(|_e| \1(_e))", text5)
+    if n_eta:
+        log.append({"where": where, "map_err_fn_items_eta_expanded": n_eta})
     if n_attr or n_doc or n_pub or n_cl or n_st:
         log.append({"where": where, "attributes_removed": n_attr, "doc_comment_lines_removed": n_doc,
                     "visibility_qualifiers_removed": n_pub, "closure_params_renamed": n_cl,
